@@ -34,12 +34,12 @@ const (
 )
 
 // Trust configurations (C01 quantifies over them).
-var Trusts = []string{"meta1", "meta2enc", "metanouse", "pinned", "fp256", "fp512"}
+var Trusts = []string{"meta1", "meta2enc", "metanouse", "pinned", "fp256", "fp512", "meta2desc", "metamulti"}
 
 // TrustedKeys lists the fixture keys whose signatures a trust configuration accepts.
 func TrustedKeys(trust string) []string {
 	switch trust {
-	case "meta2enc":
+	case "meta2enc", "meta2desc", "metamulti":
 		return []string{"idp", "idp2"}
 	default:
 		return []string{"idp"}
@@ -73,6 +73,17 @@ func fingerprint(raw []byte, alg string) string {
 		parts[i] = fmt.Sprintf("%02X", b)
 	}
 	return strings.Join(parts, ":")
+}
+
+func wrap64(b string) string {
+	var sb strings.Builder
+	sb.WriteString("\n")
+	for len(b) > 64 {
+		sb.WriteString(b[:64] + "\n")
+		b = b[64:]
+	}
+	sb.WriteString(b + "\n")
+	return sb.String()
 }
 
 func mustURL(s string) url.URL {
@@ -119,6 +130,14 @@ func NewSP(c Config) *saml.ServiceProvider {
 		desc.KeyDescriptors = []saml.KeyDescriptor{kd("signing", idp.CertB64()), kd("encryption", fix.Get("idpenc").CertB64()), kd("signing", "\n  "+fix.Get("idp2").CertB64()+"\n")}
 	case "metanouse":
 		desc.KeyDescriptors = []saml.KeyDescriptor{kd("", idp.CertB64()), kd("encryption", fix.Get("idpenc").CertB64())}
+	case "meta2desc":
+		// the second signing certificate lives in a second IDPSSODescriptor (added below)
+		desc.KeyDescriptors = []saml.KeyDescriptor{kd("encryption", fix.Get("idpenc").CertB64()), kd("signing", idp.CertB64())}
+	case "metamulti":
+		// one key descriptor carrying two certificates, wrapped at 64 columns like PEM bodies
+		multi := kd("signing", wrap64(idp.CertB64()))
+		multi.KeyInfo.X509Data.X509Certificates = append(multi.KeyInfo.X509Data.X509Certificates, saml.X509Certificate{Data: wrap64(fix.Get("idp2").CertB64())})
+		desc.KeyDescriptors = []saml.KeyDescriptor{multi, kd("encryption", fix.Get("idpenc").CertB64())}
 	case "pinned":
 		// metadata carries decoys (the encryption-only key and ANOTHER signing key): the pinned
 		// certificate is what counts, the metadata certificates must not be trusted beside it
@@ -140,6 +159,11 @@ func NewSP(c Config) *saml.ServiceProvider {
 	}
 	desc.ArtifactResolutionServices = []saml.Endpoint{{Binding: saml.SOAPBinding, Location: IDPArtifact}}
 	md.IDPSSODescriptors = []saml.IDPSSODescriptor{desc}
+	if c.Trust == "meta2desc" {
+		second := saml.IDPSSODescriptor{}
+		second.KeyDescriptors = []saml.KeyDescriptor{kd("signing", fix.Get("idp2").CertB64())}
+		md.IDPSSODescriptors = append(md.IDPSSODescriptors, second)
+	}
 	sp.IDPMetadata = md
 	return sp
 }
